@@ -40,7 +40,7 @@ WIDE = {
     "ScipyGenGamma": lambda: st.fixed_dictionaries(
         dict(a=logu(0.3, 10), c=logu(0.4, 5), loc=uni(-1, 1), scale=logu(0.05, 20))
     ),
-    "ScipyGenExtreme": lambda: st.fixed_dictionaries(dict(c=uni(-0.4, 0.4), loc=uni(-5, 20), scale=logu(0.05, 10))),
+    "ScipyGenExtreme": lambda: st.fixed_dictionaries(dict(c=uni(-0.4, 0.4).map(lambda v: round(v, 3)), loc=uni(-5, 20), scale=logu(0.05, 10))),  # scipy itself is inconsistent for |c| ~ 1e-9
 }
 
 # metocean-plausible sub-ranges for model-level properties ---------------------------
@@ -64,7 +64,7 @@ PLAUSIBLE = {
     "ScipyGenGamma": lambda: st.fixed_dictionaries(
         dict(a=logu(0.6, 6), c=logu(0.6, 3), loc=st.just(0.0), scale=logu(0.2, 5))
     ),
-    "ScipyGenExtreme": lambda: st.fixed_dictionaries(dict(c=uni(-0.2, 0.3), loc=uni(2, 20), scale=logu(0.2, 3))),
+    "ScipyGenExtreme": lambda: st.fixed_dictionaries(dict(c=uni(-0.2, 0.3).map(lambda v: round(v, 3)), loc=uni(2, 20), scale=logu(0.2, 3))),
 }
 
 NATIVE = ["Weibull", "LogNormal", "Normal", "ExponentiatedWeibull", "GeneralizedGamma", "VonMises", "LogNormalNormFit"]
